@@ -32,6 +32,12 @@ type Op struct {
 	Path    []uint32 `json:"path,omitempty"`
 	PermAt  int      `json:"perm_at,omitempty"` // n > 0: during this operation about one candidate in n makes the collaborator fail permanently (keyed by the candidate bytes)
 	Wrapped bool     `json:"wrapped,omitempty"` // the permanent error is wrapped once more
+	// Observe is the order in which the caller looks at a key this operation returns: "" compares every field with the
+	// specification right away (fingerprint included); "neuter-first" takes Public() of the new key and checks THAT before
+	// any accessor of the new key itself has been called; "lazy" looks at key bytes and chain code only and leaves the
+	// rest to later operations and to the pass at the end of the run. An accessor that fills a cache on first use makes
+	// the results depend on this order.
+	Observe string `json:"observe,omitempty"`
 }
 
 // Config is one run: a curve, a fault plan and a list of operations.
@@ -332,6 +338,15 @@ func Run(cfg *Config) proto.End {
 		}
 		r.step(i, &cfg.Ops[i], fc, modelCurve)
 	}
+	// the end of the run: every extended key is looked at in full (keys observed lazily for the first time)
+	if !r.stop {
+		for j, h := range r.handles {
+			if bad := compare(h.real, h.model); bad != "" {
+				r.violate("model-divergence:"+bad, fmt.Sprintf("at the end of the run on %s: %s of extended key #%d differs from the specification (implementation %s, reference %s)", cfg.Curve, bad, j, describeReal(h.real), describeModel(h.model)), map[string]any{"curve": cfg.Curve, "api": "final-pass"})
+				break
+			}
+		}
+	}
 	r.res.Steps = len(cfg.Ops)
 	r.res.TraceHash = fmt.Sprintf("%016x", r.hash)
 	r.res.Outcome = "ok"
@@ -508,7 +523,23 @@ func (r *runState) step(i int, op *Op, fc faultCurve, mc *ref.SlipCurve) {
 			r.violate("unexpected-error", where+": returned neither key nor error", sig)
 			return
 		}
-		if bad := compare(real, model); bad != "" {
+		switch op.Observe {
+		case "neuter-first":
+			r.res.Probes["observed_public_before_any_accessor"] = 1
+			var pub *slip10.ExtendedKey
+			call(func() { pub = real.Public() })
+			if panicked != "" || pub == nil {
+				r.violate("panic:Public", where+": Public() of the returned key: "+panicked, sig)
+				return
+			}
+			if bad := compare(pub, model.Neuter()); bad != "" {
+				r.violate("model-divergence:"+bad, fmt.Sprintf("%s: Public() of the returned key, taken before any other accessor of that key was called: %s differs from the specification (implementation %s, reference %s)", where, bad, describeReal(pub), describeModel(model.Neuter())), sig)
+				return
+			}
+		case "lazy":
+			r.res.Probes["observed_lazily"] = 1
+		}
+		if bad := compareMode(real, model, op.Observe == "lazy"); bad != "" {
 			r.violate("model-divergence:"+bad, fmt.Sprintf("%s: %s differs from the specification (implementation %s, reference %s)", where, bad, describeReal(real), describeModel(model)), sig)
 			return
 		}
@@ -600,7 +631,10 @@ func kindName(k ref.ErrKind) string {
 	return [...]string{"ok", "permanent error", "hardened child of a public key", "non-hardened child on ed25519"}[k]
 }
 
-func compare(real *slip10.ExtendedKey, m *ref.XKey) string {
+func compare(real *slip10.ExtendedKey, m *ref.XKey) string { return compareMode(real, m, false) }
+
+// compareMode with shallow set looks at the exported data only (no accessor that could compute and cache something).
+func compareMode(real *slip10.ExtendedKey, m *ref.XKey, shallow bool) string {
 	switch {
 	case real.IsPrivate() != m.Private:
 		return "private-flag"
@@ -608,6 +642,8 @@ func compare(real *slip10.ExtendedKey, m *ref.XKey) string {
 		return "key"
 	case !bytes.Equal(real.ChainCode, m.ChainCode):
 		return "chain-code"
+	case shallow:
+		return ""
 	case !bytes.Equal(real.Key.Public().Bytes(), m.Public()):
 		return "public-key"
 	case !bytes.Equal(real.Fingerprint(), m.Fingerprint()):
@@ -723,6 +759,9 @@ func Gen(seed uint64, tier string) *Config {
 			o.PermAt, o.Wrapped = perm()
 		}
 		c.Ops = append(c.Ops, o)
+	}
+	for i := range c.Ops {
+		c.Ops[i].Observe = pickS(r, "", "", "neuter-first", "lazy", "lazy")
 	}
 	return c
 }
